@@ -833,6 +833,22 @@ def a_neq_product_order(xs, ys, f):
 def b_neq_product_order(xs, ys, f):
     return [f(x, y) for x in xs for y in ys]
 
+import operator as _vp_operator
+_VP_TESTS = {"below": _vp_operator.lt, "above": _vp_operator.gt}
+def _vp_apply(test, a, b):
+    return test(a, b)
+def a_operator_table(p, q):
+    return _vp_apply(_VP_TESTS["below"], p, q), _VP_TESTS["above"](p, q)
+def b_operator_table(p, q):
+    return p < q, p > q
+
+def a_reduce_display(p, q, r):
+    import functools
+    return functools.reduce(lambda a, b: a if a < b else b, (p, q, r))
+def b_reduce_display(p, q, r):
+    m = p if p < q else q
+    return m if m < r else r
+
 def a_neq_order(p, q):
     return [p, q]
 def b_neq_order(p, q):
@@ -847,7 +863,7 @@ EQUAL = ["helper", "raise_in_helper", "ite", "single_exit", "loop_append", "dict
          "gen_return", "counted_while", "join_fstr", "minmax_ite", "gen_display", "int_fold", "dict_call", "clamp_helper",
          "table_items", "star_list", "list_concat", "itemgetter2", "axis_helper", "table_member", "registry",
          "vararg_helper", "bool_flag", "record_property", "comp_after_subst", "search_helper", "bound_method",
-         "isdisjoint", "product_comp", "dict_copy_update", "shapely_functions", "star_through_helpers", "join_after_subst"]
+         "isdisjoint", "product_comp", "dict_copy_update", "shapely_functions", "star_through_helpers", "join_after_subst", "operator_table", "reduce_display"]
 DIFFERENT = ["neq_filter", "neq_later_mutation", "neq_order", "neq_search_default", "neq_option", "neq_gen_stop", "neq_vararg", "neq_search_helper", "neq_property_guard", "neq_bound_method", "neq_product_order"]
 
 
